@@ -193,7 +193,12 @@ class _DehintingT2Decompiler(T2WidthExtractor):
 
         if hints.status != 2:
             # Check from last_check, make sure we didn't have any operators.
-            for i in range(hints.last_checked, len(charString.program) - 1):
+            # The final token is skipped if it is 'return', but not 'endchar':
+            # a subroutine that ends the glyph is not empty.
+            end = len(charString.program)
+            if charString.program and charString.program[-1] == "return":
+                end -= 1
+            for i in range(hints.last_checked, end):
                 if isinstance(charString.program[i], str):
                     hints.status = 2
                     break
